@@ -47,16 +47,16 @@ claim('C05', 'proof',
       "Contract of the claim loop over a symbolic-capacity flag array under interference: returned id < K, obtained by a 0->1 exchange performed by me, different from the id of any other running thread (skolem), unchanged on later calls without touching the flags.",
       TB + IDN, "CBMC code contracts (loop contract over symbolic capacity, rely/guarantee on the flag cells)", "3 C05")
 claim('C14', 'proof',
-      "Safety part: the thread-exit destructor clears exactly the flag it owns (frame = that one cell), a flag becomes true only in the claim step of its new owner; a free slot that the loop visits is claimed. Termination of GetThreadID under contention and the probe-order coverage are assumed (liveness / no loop counter to state it).",
-      TB + IDN + "Assumed: fair termination of the claim loop; the probe sequence (start+1+j) mod K visits all slots.", "CBMC code contracts (frame + guarantee assertions)", "3 C14")
+      "Safety part: the thread-exit destructor clears exactly the flag it owns (frame = that one cell), a flag becomes true only in the claim step of its new owner; a free slot that the loop visits is claimed. The release is proved for every behaviour of observers of the heartbeat (a promoted weak_ptr is an arbitrary constant of the proof). Probe-order coverage (a thread that finds all other ids taken reaches the one free slot within K probes) is a BOUNDED group (capacities 1..8, every start position, unwind 10 with unwinding assertions), labelled bounded. Termination of GetThreadID under contention is assumed (liveness).",
+      TB + IDN + "Assumed: fair termination of the claim loop; probe coverage beyond capacity 8 (no loop counter exists to state it as an invariant).", "CBMC code contracts (frame + guarantee assertions)", "3 C14")
 claim('C15', 'proof',
-      "Exit-path ordering obligation (the reservation flag is released only after my heartbeat generation died), only SetID creates a generation, GetHeartBeat returns a weak reference to my live generation.",
+      "Exit-path ordering obligation (the reservation flag is released only after my heartbeat generation died), only SetID creates a generation, GetHeartBeat returns a weak reference to my live generation; owners held by the library (member, copies, moved-to objects, temporaries) are counted, the flag may be released only when none is left.",
       TB + IDN + "The cross-thread conclusion (when I am given id k every earlier heartbeat for k is expired) is the same obligation seen from the other thread (rely/guarantee symmetry, paper argument).",
       "CBMC code contracts + ghost heartbeat generations; replay through the atomic-interposition scheduler", "3 C15")
 
 EPN = "Slots are a block of symbolic length K <= 2^10; the coordinator sees every untracked slot as arbitrary (expired, unpinned, or pinning a value <= current epoch); std::vector<size_t> is abstract (size, membership of two tracked values, max/min/last); sort/unique/erase are assumed library contracts. "
 claim('C04', 'proof',
-      "Contracts of EnterEpoch / EpochGuard / CreateEpochGuard / CollectProtectedEpochs (loop invariant over the symbolic capacity) / ForwardGlobalEpoch with one skolemised tracked guard: its epoch is in the list published for the new epoch and the stored minimum does not exceed it; the C15 exit-order obligation of IDManager is part of this property's obligation set.",
+      "Contracts of EnterEpoch / EpochGuard / CreateEpochGuard / CollectProtectedEpochs (loop invariant over the symbolic capacity) / ForwardGlobalEpoch with one skolemised tracked guard: its epoch is in the list published for the new epoch and the stored minimum does not exceed it; the C15 exit-order obligation of IDManager is part of this property's obligation set. EpochGuard move assignment is specified from the statement (the guard that takes over a grant stays pinned; repaired defect 4a559c4). Two guards of one thread alive at once: the nested case is a recorded known finding (client-level lemma group epoch.nested_guards, replayed on the real code).",
       TB + EPN + "List-node chain operations are replaced by contracts inside ForwardGlobalEpoch (checked bounded under C20).", "CBMC code contracts with skolemised tracked guard", "3 C04")
 claim('C16', 'proof',
       "Step guarantees on the two epoch words (global epoch written only by the coordinator, +1 per call, release order; min <= current at its store), LeaveEpoch / guard destruction unpin, quiescent case: the published list is exactly {new, new-1} and min = new-1; constructor state checked on the extracted constructor.",
@@ -65,7 +65,7 @@ claim('C17', 'other',
       "Proved: every pinned epoch is a value of the global epoch read in the same call, the list published for an epoch is strictly descending with first element = that epoch and contains the previous one; obligation 'the node of my pinned epoch is still linked at lookup time' under the coordinator rely (fails on the two-step EnterEpoch: recorded known finding, replayed with the interposition scheduler). Chain lookup/retirement: bounded (<= 5 nodes).",
       TB + EPN, "CBMC code contracts + rely on coordinator steps; bounded chain groups", "3 C17")
 claim('C20', 'other',
-      "Proved: exact contents of the published list (two tracked-value inclusions, strict descent from the assumed sort/unique contracts, min = last). Bounded (labelled, <= 5 nodes, <= 6 values, unwind 8 with unwinding assertions): RemoveOutDatedLists keeps exactly head + nodes holding a protected epoch + tail and deletes the rest once, memory safety, destructor frees all nodes, lookup returns the right node.",
+      "Proved: exact contents of the published list (two tracked-value inclusions, strict descent from the assumed sort/unique contracts, min = last). Bounded (labelled, <= 5 nodes, <= 6 values, unwind 8 with unwinding assertions): RemoveOutDatedLists keeps exactly head + nodes holding a protected epoch + tail and deletes the rest once, memory safety, destructor frees all nodes, lookup returns the right node. The memory bound additionally uses a [suff] obligation (every ForwardGlobalEpoch trims the chain against the list it publishes) whose failure counts only together with a failing history replayed on the real code.",
       TB + EPN + "CBMC contracts have no unbounded linked-structure predicate, hence the bounded part.", "CBMC code contracts + bounded unwinding of the real list code", "3 C20")
 
 claim('C12', 'proof',
